@@ -137,6 +137,11 @@ pub mod stubs {
         }
         Cow::Borrowed(unsafe { core::str::from_utf8_unchecked(v) })
     }
+    /// Model of `futures_executor::block_on`: poll the future in a loop with a no-op waker (the real
+    /// one parks the thread between polls; for a single future that is observationally the same).
+    pub fn block_on_stub<F: core::future::Future>(f: F) -> F::Output {
+        crate::tpl::block(f)
+    }
     pub fn bm_new() -> bytes::BytesMut {
         bytes::BytesMut::with_capacity(256)
     }
